@@ -45,6 +45,7 @@ fn handle(toks: &[&str]) -> String {
         "chan" => wire::chan(&toks[1..]).unwrap_or_else(|| "bad-op".to_string()),
         "selstress" => wire::selstress(&toks[1..]).unwrap_or_else(|| "bad-op".to_string()),
         "exe" => l1::exe(&toks[1..]).unwrap_or_else(|| "bad-op".to_string()),
+        "exefile" => l1::exefile(&toks[1..]).unwrap_or_else(|| "bad-op".to_string()),
         "filt" => l1::filt(&toks[1..]).unwrap_or_else(|| "bad-op".to_string()),
         "rpd" => l1::rpd(&toks[1..]).unwrap_or_else(|| "bad-op".to_string()),
         _ => "bad-op".to_string(),
